@@ -60,6 +60,24 @@ var c18Kinds = []string{world.KIngress, world.KIngress, world.KIngress, world.KI
 func genC18(t *rapid.T) C18Case {
 	g := newG(t, c18Profile())
 	g.genWorld()
+	if chanceT(t, "wide", 8) {
+		// one backend published by many paths that share one authentication config, next to a path of the same
+		// backend with another config (the rules of a backend name the path ids, in lines of limited length)
+		n := rapid.IntRange(25, 40).Draw(t, "widepaths")
+		ann := map[string]string{"auth-url": rapid.SampledFrom([]string{"http://10.0.0.9:8080/auth", "svc://s2:8000", "http://bad host/", "svc://s9:80"}).Draw(t, "wideauth")}
+		if chanceT(t, "wideoauth", 25) {
+			ann = map[string]string{"oauth": "oauth2_proxy"}
+		}
+		wide := &world.Obj{Kind: world.KIngress, NS: "a", Name: "wide", Created: 50, ClassName: sp(world.OurClass), Ann: ann}
+		rule := world.Rule{Host: "wide.local"}
+		for i := 0; i < n; i++ {
+			rule.Paths = append(rule.Paths, world.Path{Path: fmt.Sprintf("/w%02d", i+1), Type: "Prefix", Svc: "s1", Port: "80"})
+		}
+		wide.Rules = []world.Rule{rule}
+		g.add(wide)
+		g.add(&world.Obj{Kind: world.KIngress, NS: "a", Name: "wideopen", Created: 51, ClassName: sp(world.OurClass),
+			Rules: []world.Rule{{Host: "wide.local", Paths: []world.Path{{Path: "/open", Type: "Prefix", Svc: "s1", Port: "80"}}}}})
+	}
 	c := C18Case{Params: ctlsim.Params{Shards: rapid.SampledFrom([]int{0, 0, 2}).Draw(t, "shards")}}
 	for _, o := range g.W.List() {
 		c.Objs = append(c.Objs, o.Clone())
@@ -226,6 +244,17 @@ func c18Eval(s *ctlsim.Sim, objs []*world.Obj, params ctlsim.Params) (*Failure, 
 			for _, e := range res.Effects {
 				if e.Kind == "lua.auth-intercept" {
 					intercepted = true
+					// oauth (calls to <uri-prefix>/auth; auth-url calls of other declarations on the same host are not
+					// this rule's business): the proxy is the backend that serves <uri-prefix> in the namespace of the declaration; a
+					// namespace without one cannot honour the declaration (denied), it is never the proxy of another tenant
+					if f := strings.Fields(e.Raw); hasOAuth && !(hasURL && authURL != "") {
+						for i, tok := range f {
+							if tok == "lua.auth-intercept" && i+2 < len(f) && f[i+2] == prefix+"/auth" && !strings.HasPrefix(f[i+1], ing.NS+"_") {
+								return failf2(r, "C18:oauth-intercepted-by-foreign-namespace", "request %s matches rule %v of ingress %s (annotations %v) which declares oauth; the authentication call goes to backend %s, which is not a backend of namespace %s: %q",
+									rq, rule.C04Rule, rule.Ing, ing.Ann, f[i+1], ing.NS, e.Raw)
+							}
+						}
+					}
 				}
 			}
 			if !intercepted {
